@@ -207,6 +207,48 @@ theorem cn_Tnuc_close_1D (p : SnowIn ℝ) (Nz : ℕ) (hN : 2 ≤ Nz) (shelf : Li
   rw [hstep]
   linarith
 
+/-! ### audit repair (M14): the CFL hypothesis `0 ≤ Fo ≤ 1/2` follows from the code's own `dt` -/
+
+/-- diffusivity of the cooling stage `lambda_eff/(cp_solution·rho_l)` and the limiting diffusivity
+`alpha_max = lambda_i/(cp_i·rho_l)` the code derives `dt` from -/
+noncomputable def diffCool (p : SnowIn ℝ) : ℝ :=
+  (p.const.solid_fraction * p.const.lambda_s + (1 - p.const.solid_fraction) * p.const.lambda_w) /
+    (p.const.cp_solution * p.const.rho_l)
+noncomputable def alphaMax1D (p : SnowIn ℝ) : ℝ := p.const.lambda_i / (p.const.cp_i * p.const.rho_l)
+
+/-- with `dt = 0.4·dz²/alpha_max` the Fourier number of the cooling stage is `0.4·alpha/alpha_max` -/
+theorem fo_grid1D (p : SnowIn ℝ) (Nz : ℕ) (hdz : (grid1D p Nz).dz ≠ 0) :
+    (grid1D p Nz).fo = (4 / 10) * diffCool p / alphaMax1D p := by
+  have hdz' : p.const.height / (Nz : ℝ) ≠ 0 := by simpa [grid1D] using hdz
+  obtain ⟨hH, hNz⟩ := div_ne_zero_iff.mp hdz'
+  simp only [grid1D, diffCool, alphaMax1D, one_real, lit_real, ofNat'_real, Int.cast_ofNat, pow_one]
+  by_cases hα : p.const.lambda_i / (p.const.cp_i * p.const.rho_l) = 0
+  · simp [hα]
+  · have hd2 : p.const.height / (Nz : ℝ) * (p.const.height / (Nz : ℝ)) ≠ 0 := mul_ne_zero hdz' hdz'
+    field_simp
+
+/-- **`0 ≤ Fo ≤ 1/2` from the code**: whenever the liquid diffusivity is non-negative and at most
+`1.25·alpha_max` (it is `0.13·alpha_max` for the default constants) -/
+theorem fo_bounds_grid1D (p : SnowIn ℝ) (Nz : ℕ) (hdz : (grid1D p Nz).dz ≠ 0) (ham : 0 < alphaMax1D p)
+    (hd0 : 0 ≤ diffCool p) (hd : diffCool p ≤ (5 / 4) * alphaMax1D p) :
+    0 ≤ (grid1D p Nz).fo ∧ (grid1D p Nz).fo ≤ 1 / 2 := by
+  rw [fo_grid1D p Nz hdz]
+  constructor
+  · positivity
+  · rw [div_le_iff₀ ham]; nlinarith
+
+/-- `cn_Tnuc_close_1D` with the CFL hypothesis discharged from the constants -/
+theorem cn_Tnuc_close_1D_code (p : SnowIn ℝ) (Nz : ℕ) (hN : 2 ≤ Nz) (shelf : List ℝ) (cn : ℝ)
+    (hcn : p.cnTemp = some cn) (hdz : (grid1D p Nz).dz ≠ 0) (ham : 0 < alphaMax1D p)
+    (hd0 : 0 ≤ diffCool p) (hd : diffCool p ≤ (5 / 4) * alphaMax1D p)
+    (h0 : cn + 273.15 < p.T_0) (i : ℕ) (h : (run1DOn p Nz false shelf).NtCoolEnd = some i)
+    (st : Stats1D ℝ) (hst : (run1DOn p Nz false shelf).stats = some st) :
+    ∃ hi : i < shelf.length,
+      st.T_nuc_min ≤ cn ∧
+      cn - stepDrop1D p (grid1D p Nz) i (prev1D p Nz shelf i) shelf[i] < st.T_nuc_min :=
+  cn_Tnuc_close_1D p Nz hN shelf cn hcn (fo_bounds_grid1D p Nz hdz ham hd0 hd).1
+    (fo_bounds_grid1D p Nz hdz ham hd0 hd).2 h0 i h st hst
+
 /-! ### the current code (defect F4) -/
 
 /-- the test of the current code does not look at the temperatures: for every field and every
